@@ -74,3 +74,14 @@ package cache
 
 //@ # offset of a sub-slice within the slice it was cut from
 //@ define indexOfFirst(s []RSLEntryIndex, r []RSLEntryIndex) int = smt("(- (slc_off %1) (slc_off %2))", int, r, s)
+
+//@ # ---- C08: writing the persistent cache changes no reference but the local cache reference ----
+//@ func ext:(pkg/gitstore.Storer).WriteBlob -> (id, err)
+//@   trusted
+//@   assigns ghost faults, ghost objSet
+//@   ensures faults == old(faults) + ite(err != nil, 1, 0)
+//@ func [C08] (*Persistent).Commit -> (err)
+//@   requires p != nil && repo != nil
+//@   assigns ghost faults, ghost refTip, ghost refSet, ghost objSet, fresh(elems gitstore.TreeEntry)
+//@   ensures onlyCacheRef: forall r string :: r != Ref ==> refTip[r] == old(refTip[r]) && refSet[r] == old(refSet[r])
+//@   ensures nothingOnError: err != nil ==> refTip == old(refTip) && refSet == old(refSet)
